@@ -269,3 +269,16 @@ Theorem C08_writer_channels_satisfy_FilesInv : forall c ops,
   FilesInv (rc_of c) (map (to_rfile c) (all_files (p_w (fold_left (api_state c) ops py_init)))).
 Proof. exact api_files_reader_invariant. Qed.
 Print Assumptions C08_writer_channels_satisfy_FilesInv.
+
+(* ---- the candidate-file arithmetic regenerated.  Gen/RfLookupGen.v is produced on every run from the
+   current source of DigitalRFReader._get_file_list (translator T8: Python integer expressions, range,
+   np.arange, np.logical_and of two comparisons -- floating-point or np.uint64 arithmetic is not
+   translatable).  The list it denotes is exactly get_file_list ExactRational of the model, about which
+   the theorems above speak: the model's closed form (first / last qualifying position of the arithmetic
+   progression of a subdirectory) is the filter the code applies to np.arange. *)
+From DRF Require Import Gen.RfLookupGen Proofs.RfLookupGenProofs.
+
+Theorem C08_file_lookup_is_the_regenerated_code : forall c s e, 0 < fcad c -> 0 < scad c ->
+  gen_file_list c s e = get_file_list ExactRational c s e.
+Proof. exact get_file_list_regen. Qed.
+Print Assumptions C08_file_lookup_is_the_regenerated_code.
